@@ -10,11 +10,13 @@ Variable env : key -> N.
 Variable F : key -> N -> list value -> list N -> N -> N.
 Variable order : N -> key -> list dep -> list dep.
 Variable rank : key -> nat.
+Variable R : key -> N -> rule.
+Hypothesis HR : table_ok rules R.
 Hypothesis Hrank : wf_rank rules rank.
 Hypothesis Hdisc : wf_disc rules.
 Hypothesis Horder : wf_order order.
 
-Local Notation G := (Good rules env F rank).
+Local Notation G := (Good rules env F rank R).
 Local Notation cvk := (cvk rules env F rank).
 Local Notation provs_ok := (provs_ok rules env F rank).
 
@@ -138,7 +140,7 @@ Proof.
   pose proof (frame_notdone _ _ _ _ F5 Hnd) as Hnd5.
   set (v := task_value rules env F k (rules k) (map cvk (r_req (rules k))) (map cvk bk)).
   assert (Hv : Some v = cvk k) by apply task_value_clean.
-  pose proof (Good_complete rules env F order rank E s5 k r bk v G5 Hr5 Hnd5 Hv) as G6.
+  pose proof (Good_complete rules env F order rank R E s5 k r bk v G5 Hr5 Hnd5 Hv) as G6.
   pose proof (complete_frame rules env F order stack s5 k (rules k) r bk v Hnst Hnd5) as F6.
   set (s6 := complete order s5 k (rules k) r bk v) in *.
   destruct (follows_step (fun x => x = k \/ E x) k stack (r_disc (rules k)) s6
@@ -247,8 +249,8 @@ Proof.
   assert (HkE : ~ E k). { intros H. apply Ed. now apply HG. }
   assert (Hdeps : forall d, In d (res_deps r) -> (rank (d_key d) < rank k)%nat).
   { intros d Hd. destruct G1 as (_ & _ & Hrows & _). specialize (Hrows k HkE). rewrite Hr1 in Hrows.
-    destruct Hrows as (v & _ & _ & Hm & _); [exact Eb | now symmetry|].
-    apply Hrank. apply Hm. cbn [res_deps r]. now rewrite drop_single_idem. }
+    destruct Hrows as (v & _ & _ & Hm & _); [exact Eb|].
+    rewrite <- Es, (HR k) in Hm. apply Hrank. apply Hm. cbn [res_deps r]. now rewrite drop_single_idem. }
   destruct (scan_good E k stack r (res_deps r) (emit s1 (EValid k true))) as (s' & E' & G' & P'); auto.
   - intros d Hd. left. now apply in_cdeps in Hd.
   - exists s'. split; [exact E'|]. split; [exact G'|]. eapply provs_trans; eauto.
@@ -262,13 +264,15 @@ Variable env : key -> N.
 Variable F : key -> N -> list value -> list N -> N -> N.
 Variable order : N -> key -> list dep -> list dep.
 Variable rank : key -> nat.
+Variable R : key -> N -> rule.
+Hypothesis HR : table_ok rules R.
 Hypothesis Hrank : wf_rank rules rank.
 Hypothesis Hdisc : wf_disc rules.
 Hypothesis Horder : wf_order order.
 
 Theorem ensure_good : forall fuel E stack s k,
-  (rank k < fuel)%nat -> (forall y, In y stack -> (rank k < rank y)%nat) -> Good rules env F rank E s ->
-  exists s', ensure rules env F order fuel stack s k = Ok s' /\ Good rules env F rank E s' /\
+  (rank k < fuel)%nat -> (forall y, In y stack -> (rank k < rank y)%nat) -> Good rules env F rank R E s ->
+  exists s', ensure rules env F order fuel stack s k = Ok s' /\ Good rules env F rank R E s' /\
              provs_ok rules env F rank s s'.
 Proof.
   induction fuel as [|f IH]; intros E stack s k Hk Hst HG; [lia|]. cbn [ensure].
